@@ -38,6 +38,10 @@ CHECKS["C16"] = dict(engine="X", technique=X, design="§4 C16",
                      text="Bounded symbolic model checking, inductive-step style: from a valid pre-state (two modules, a class with members, four aliases each resolved or not by symbolic choice) ONE API call (set_member, __setitem__, del_member, __delitem__, get_member, __getitem__ on a module, a class or the collection) with a solver-chosen key (dotted string or tuple; segments over existing names, names reached through an alias, a fresh name, the empty string) must preserve every invariant of the statement or fail leaving the tree unchanged; plus 2-step (thorough: 3-step) histories from an empty collection against a nested-dictionary model.",
                      note="Trusted: CrossHair models + z3; the pre-state family (if an invariant-violating state were reachable only through longer histories the step would not see it). Known finding: mutation through an alias path is silently lost (region excluded).")
 
+CHECKS["C04"] = dict(engine="X", technique=X, design="§4 C04",
+                     text="Bounded symbolic model checking: relative_to_absolute against CPython's own importlib._bootstrap._resolve_name for every level 0..3 (4), module depth <= 3, package-or-module, from-module text; every import form through Visitor.visit_import/visit_importfrom with symbolic names (collisions with the current module and package found by solving); ExprName.canonical_path for a solver-chosen name from every scope of a small package (module, class body, nested class body, method signatures) against Python's scoping rule; attribute chains a.b.c.",
+                     note="Trusted: CrossHair models + z3; the reference scoping rule (class bodies are not enclosing scopes; module globals are outermost). Known finding: nested classes see enclosing-class members (region excluded).")
+
 NOT_APPLICABLE = [
     {"property_id": "C17", "reason": "static-vs-dynamic agreement needs importlib/inspect on live objects of concrete executable modules: nothing symbolic survives the import boundary, so a solver could only enumerate program texts (enumeration, not solving). See DESIGN.md §5."},
 ]
